@@ -1291,3 +1291,78 @@ def brtab(ctx, pid):
         ctx.bad(cst, f.loc(), "no path realises the arm(s) %s of the branch update" % ", ".join(missing))
     else:
         ctx.ok(cst, f.loc(), "rebuild (%d paths) / collapse over a kv survivor (%d) / collapse over a branch or leaf survivor (%d): every return value equals the table" % (arms["rebuild"], arms["collapse-kv"], arms["collapse-other"]))
+
+
+@rule("ROUTE3", ["C13"])
+def route3(ctx, pid):
+    """The public branch / witness helpers are thin wrappers: they hand (db, root, encode_to_bin(key)) in that
+    order to their walker and return its result (as a tuple for the generators); if_branch_valid answers True;
+    the witness walker adds the whole subtrie exactly when the key prefix is exhausted."""
+    eng = S(ctx)
+    BR = "trie.branches:"
+    E2B = "trie.utils.binaries:encode_to_bin"
+
+    def enc(x):
+        return ("call", E2B, (x,), ())
+    table = [
+        ("check_if_branch_exist", "_check_if_branch_exist", lambda f: (("p", f.params[0]), ("p", f.params[1]), enc(("p", f.params[2]))), False),
+        ("get_branch", "_get_branch", lambda f: (("p", f.params[0]), ("p", f.params[1]), enc(("p", f.params[2]))), True),
+        ("get_trie_nodes", "_get_trie_nodes", lambda f: (("p", f.params[0]), ("p", f.params[1])), True),
+        ("get_witness_for_key_prefix", "_get_witness_for_key_prefix", lambda f: (("p", f.params[0]), ("p", f.params[1]), enc(("p", f.params[2]))), True),
+    ]
+    for pub, walker, args, tup in table:
+        f = ctx.P.func(BR + pub)
+        w = ("call", BR + walker, args(f), ())
+        if tup:
+            w = ("call", "ext:tuple", (w,), ())
+        rets = {st.ret for p, st in pq.states(ctx, f) if p.exit[0] == "return"}
+        c = "route:%s" % pub
+        if rets == {w}:
+            ctx.ok(c, f.loc(), "returns `%s`" % tstr(w)[:90])
+        else:
+            ctx.bad(c, f.loc(), "%s returns `%s`, expected `%s`" % (pub, "; ".join(tstr(r)[:70] for r in rets), tstr(w)[:90]))
+    # if_branch_valid: the only normal outcome is True
+    f = ctx.P.func(BR + "if_branch_valid")
+    rets = {st.ret for p, st in pq.states(ctx, f, unroll=1) if p.exit[0] in ("return", "fall")}
+    if rets == {C(True)}:
+        ctx.ok("verdict:if_branch_valid", f.loc(), "every path that passes the checks returns True", nontrivial=False)
+    else:
+        ctx.bad("verdict:if_branch_valid", f.loc(), "if_branch_valid returns `%s` after passing its checks, expected True" % "; ".join(tstr(r) for r in rets if r is not None))
+    # witness walker: subtrie exactly on an exhausted key
+    f = ctx.P.func(BR + "_get_witness_for_key_prefix")
+    db_, nh_, kp_ = (("p", x) for x in f.params[:3])
+    sub = ("call", BR + "get_trie_nodes", (db_, nh_), ())
+    probs = []
+    n = {True: 0, False: 0}
+    for p, st in pq.states(ctx, f):
+        truth = {}
+        for t, pol, _ in st.log:
+            tt, pp = truth_norm(t, pol)
+            truth.setdefault(tt, pp)
+        empty = None
+        if kp_ in truth:
+            empty = not truth[kp_]
+        else:
+            lo, hi = eng.len_of(kp_, st.facts)
+            empty = True if hi == 0 else (False if lo >= 1 else None)
+        yf = [eng.ev(ev.node.value, f, st) for ev in st.events if ev.k == "yieldfrom" and isinstance(ev.node, ast.YieldFrom)]
+        whole = sub in yf
+        if p.exit[0] == "raise" and len(st.log) < 2:
+            continue  # left by an exception before the walk proper started
+
+        if empty is None:
+            if whole:
+                probs.append("the whole subtrie is yielded on a path that does not test whether the key prefix is exhausted")
+            continue
+        n[empty] += 1
+        if empty and not whole:
+            probs.append("an exhausted key prefix does not yield the subtrie below the node (get_trie_nodes(db, node_hash))")
+        if not empty and whole:
+            probs.append("the whole subtrie is yielded although the key prefix is not exhausted")
+    c = "subtrie-on-exhausted-key:_get_witness_for_key_prefix"
+    if probs:
+        ctx.bad(c, f.loc(), probs[0])
+    elif not (n[True] and n[False]):
+        ctx.unsure(c, f.loc(), "paths with exhausted / non-exhausted key prefix: %d / %d" % (n[True], n[False]))
+    else:
+        ctx.ok(c, f.loc(), "yield from get_trie_nodes(db, node_hash) exactly when the key prefix is empty")
